@@ -14,15 +14,18 @@ LEVEL = "proof"
 MANIFEST = {
     "technique": "Coq proof (engine = reference expander on an explicit template grammar) + translator-regenerated pipeline + "
                  "function-level and end-to-end differential correspondence",
-    "text": "Theorems C17_usertag (per-line user-tag replacement = assigned value / inline default / verbatim, every line of the syntax), "
-            "C17_if (IF/ELSEIF branch emitted iff its tag is assigned, ELSE iff none was; scanner state machine, any number of branches), "
-            "C17_for (body once per item / count with FIRST/LAST/EACH/each/NUM/ALPH), C17_engine_is_ref (whole pipeline of "
-            "smgen.Generate as extracted by the translator = reference expander, every template of in_grammar17 and every assignment "
-            "of wf_assign17), C17_noninterference. Model tied to cgen.py/smgen.py by Gen/Tags.v + Gen/Pipeline.v (stage and phase order), "
-            "function-level correspondence of every modelled function and end-to-end runs through Generate.StateMachine*.",
-    "note": "Model of the repaired code (three fix: commits in the implementation). The grammar excludes the engine's substring "
-            "quirks by boolean classification conditions that are evaluated on every generated case; FOR-header resolution and the "
-            "count->items step are checked per instance (see report). CPython str/re semantics are modelled, not verified.",
+    "text": "Theorems, all full: C17_usertag (per-line user-tag replacement = assigned value / inline default / verbatim, every line of the "
+            "syntax), C17_if (IF/ELSEIF branch emitted iff its tag is assigned, ELSE iff none was; scanner state machine, any number of "
+            "branches), C17_for (the FOR loop proper: for every body and every list / count >= 1, FIRST / LAST lines anywhere and any number "
+            "of them, innerexpand_for_loop = ref_for: two-loop invariant, str.replace acting segment-wise, the count's detour through "
+            "'_0_,_1_,...'), C17_for_phase (PairExpander around the loop), C17_engine_is_ref (whole pipeline of smgen.Generate as extracted "
+            "by the translator = reference expander, every template of in_grammar17 and every assignment of wf_assign17), "
+            "C17_noninterference. Model tied to cgen.py/smgen.py by Gen/Tags.v + Gen/Pipeline.v (stage and phase order), function-level "
+            "correspondence of every modelled function and end-to-end runs through Generate.StateMachine*.",
+    "note": "Model of the repaired code (three fix: commits in the implementation). The grammar excludes the engine's substring quirks by "
+            "boolean classification conditions that are evaluated on every generated case (a line is what the engine's substring tests "
+            "take it for; FOR-header resolution through for_header_subst is such a condition, not proved for all tag names). CPython "
+            "str/re semantics are modelled, not verified.",
 }
 RULE = ("(a) function level: every modelled cgen function against its extracted twin on random strings over < > = , space a b A _ { } \\n \\t "
         "mixed with whole tags and keywords; (b) end to end: template ASTs from the C17 grammar (plain lines with 0-4 literal/tag segments, "
